@@ -90,7 +90,10 @@ def cases(draw, kind, partial):
     warm = []
     for _ in range(draw(st.sampled_from([0, 0, 1, 2]))):
         warm.append({'face': draw(st.sampled_from(FACES)), 'npos': draw(st.integers(0, 5)), 'kw': draw(st.lists(st.sampled_from(kwpool), unique=True, max_size=3))})
-    return {'sig': sig, 'kind': kind, 'partial': bool(partial), 'layers': layers, 'npos': npos, 'kw': kw, 'warm': warm}
+    # a callable instance that ALSO carries an instance attribute named __call__ (a monkey-patch, a fast-path assigned in __init__): python calls
+    # through the type and never looks at it
+    own_call = kind == 'instance' and draw(st.integers(0, 2)) == 0
+    return {'sig': sig, 'kind': kind, 'partial': bool(partial), 'layers': layers, 'npos': npos, 'kw': kw, 'warm': warm, 'own_call': own_call}
 
 
 def strata(tier):
@@ -157,6 +160,10 @@ def build_callable(case, log):
             faces['other_instance'] = inst2
             faces['methodtype'] = types.MethodType(K.__call__, inst2)
             faces['partial0'] = functools.partial(inst)
+            if case.get('own_call'):
+                # instance attributes holding BOUND methods with other signatures; irrelevant to inst(...)
+                inst.__call__ = types.MethodType(lambda self_: None, inst)
+                inst2.__call__ = types.MethodType(lambda self_, only_this_one: None, inst2)
     vals = iter(range(100, 200))
     for l in case['layers']:
         target = functools.partial(target, *[next(vals) for _ in range(l['npos'])], **dict((k, next(vals)) for k in l['kw']))
@@ -232,6 +239,8 @@ def run_case(case):
         classes.append('warm_face:' + w['face'])
     if out:
         return out, None, classes
+    if case.get('own_call'):
+        classes.append('instance_attribute_named___call__')
     valid = probe(klepto, target, a, k, log, kindtag + ('/after-other-face' if case.get('warm') else ''), describe(case), kwonly, out)
     classes.append('valid' if valid else 'invalid')
     if kwonly:
@@ -274,7 +283,7 @@ def describe(case):
     return d
 
 
-REQUIRED_CLASSES = ['nested_unflattened_partial', 'valid', 'invalid', 'kwonly', 'varargs', 'varkw', 'near_arity'] + ['warm_face:' + f for f in FACES] + ['kind:' + k for k in KINDS] + ['kind:partial-of-' + k for k in KINDS]
+REQUIRED_CLASSES = ['instance_attribute_named___call__', 'nested_unflattened_partial', 'valid', 'invalid', 'kwonly', 'varargs', 'varkw', 'near_arity'] + ['warm_face:' + f for f in FACES] + ['kind:' + k for k in KINDS] + ['kind:partial-of-' + k for k in KINDS]
 
 
 def _t_kwonly(case, discr):
